@@ -1,5 +1,6 @@
 /- Driver for C16: prints the exception shapes computed from the generated grammar table and the builder model. -/
 import UtapModel.Model.C16
+import UtapModel.Model.SyncUsed
 open UtapModel.C16
 
 partial def loop (h : IO.FS.Stream) (out : IO.FS.Stream) : IO Unit := do
@@ -12,6 +13,12 @@ partial def loop (h : IO.FS.Stream) (out : IO.FS.Stream) : IO Unit := do
   else if w == "effects" then
     for p in ["expr_forall_begin", "expr_forall_end", "proc_edge_begin", "proc_edge_end", "block_begin", "expr_binary"] do
       out.putStrLn s!"{p} {frameEffect p}"
+  else if w.startsWith "sync " then
+    -- `sync b q c ..`: the synchronisation labels of a document in visiting order -> for each, whether the CSP/IO mix is reported on it
+    let ks := ((w.drop 5).toString.splitOn " ").filterMap (fun x =>
+      if x == "b" then some UtapModel.SyncUsed.SK.bang else if x == "q" then some .que else if x == "c" then some .csp else none)
+    let ds := UtapModel.SyncUsed.diags UtapModel.SyncUsedTbl.trans 0 ks
+    out.putStrLn ("SYNC " ++ String.ofList (ds.map (fun b => if b then '1' else '0')))
   else out.putStrLn "bad-op"
   loop h out
 
